@@ -1,5 +1,5 @@
 #!/bin/bash
 # seed_matrix.sh <ID>... : for each property ID run its quick check against both seeded mutations of that property.
 for id in "$@"; do for m in m1 m2; do
-  /verif/tools/try_seed.sh /tmp/mutout/$id/$m/patch.diff $id 2>&1 | grep "^RESULT\|PATCH-DOES"
+  /verif/tools/try_seed.sh ${MUTOUT:-/tmp/mutout}/$id/$m/patch.diff $id 2>&1 | grep "^RESULT\|PATCH-DOES"
 done; done
